@@ -603,6 +603,71 @@ fn replay_one(rep: &mut Report, drv: &mut Driver, v: &Value) {
 fn corpus() -> Vec<(String, Prog)> {
     let mut out: Vec<(String, Prog)> = corpus_clauses().into_iter().map(|(n, p)| (n.to_string(), p)).collect();
     out.extend(corpus_records());
+    out.extend(corpus_matches());
+    out
+}
+
+/// Class representatives for "only the selected arm runs, guards tried in source order", over
+/// the whole small table (variant the pattern names) x (variant of the examinee), for the enum
+/// `E` (three variants) and for `i32?`:
+///  * one named variant and `_`:            `match v { V_a(..) => .., _ => .. }`
+///  * guarded `_` between two variants:      `match v { V_a(..) if g1 => .., _ if g2 => .., V_b(..) if g3 => .., _ => .. }`
+/// The examinee's variant is fixed per program; the guards depend on the arguments (all four
+/// combinations of g1, g2 occur among the corpus arguments).
+fn corpus_matches() -> Vec<(String, Prog)> {
+    use E::{Bin, Bool, Ctor, Host, Int, Match, Var};
+    let b = |e: E| Box::new(e);
+    let em = |k: i32, v: E| Host(H_EMIT, vec![Int(k), v]);
+    let emb = |k: i32, v: E| Host(H_EMIT_B, vec![Int(k), v]);
+    let last = |e: E| Blk { stmts: vec![], last: Some(Box::new(e)) };
+    let mut out = vec![];
+    for is_opt in [false, true] {
+        let nvar = if is_opt { 2 } else { 3 };
+        let arity = |v: usize| if is_opt { [1, 0][v] } else { VARIANTS[v].1 };
+        let vname = |v: usize| if is_opt { ["Some", "None"][v] } else { VARIANTS[v].0 };
+        let examinee = |v: usize| -> E {
+            if is_opt {
+                // emit_o(k, n) is Some(n) for even n, None for odd n
+                Host(H_EMIT_O, vec![Int(9), Int(if v == 0 { 4 } else { 3 })])
+            } else {
+                Ctor(v, (0..arity(v)).map(|j| em(90 + j as i32, Var(j))).collect())
+            }
+        };
+        for k in 0..nvar {
+            for a in 0..nvar {
+                // one named variant and `_`
+                let mut tys = vec![T::I, T::I, T::B];
+                let binds: Vec<usize> = (0..arity(a)).map(|_| { tys.push(T::I); tys.len() - 1 }).collect();
+                let arms = vec![
+                    Arm { pat: Pat::Variant(a, binds), guard: None, body: last(em(1, Int(10))) },
+                    Arm { pat: Pat::Wild, guard: None, body: last(em(2, Int(20))) },
+                ];
+                out.push((
+                    format!("match on {}: the only pattern names {}, `_` for the rest; the value is {}", if is_opt { "i32?" } else { "E" }, vname(a), vname(k)),
+                    Prog { fns: vec![Fn_ { params: vec![0, 1, 2], ret: T::I, body: last(Match(b(examinee(k)), is_opt, arms)) }], var_tys: tys },
+                ));
+                for c in 0..nvar {
+                    if c == a {
+                        continue;
+                    }
+                    // a guarded `_` written between the (guarded) arms of two variants, `_` last
+                    let mut tys = vec![T::I, T::I, T::B];
+                    let ba: Vec<usize> = (0..arity(a)).map(|_| { tys.push(T::I); tys.len() - 1 }).collect();
+                    let bc: Vec<usize> = (0..arity(c)).map(|_| { tys.push(T::I); tys.len() - 1 }).collect();
+                    let arms = vec![
+                        Arm { pat: Pat::Variant(a, ba), guard: Some(emb(1, Var(2))), body: last(em(2, Int(10))) },
+                        Arm { pat: Pat::Wild, guard: Some(emb(3, Bin(Op::Gt, b(Var(1)), b(Int(5))))), body: last(em(4, Int(20))) },
+                        Arm { pat: Pat::Variant(c, bc), guard: Some(emb(5, Bool(true))), body: last(em(6, Int(30))) },
+                        Arm { pat: Pat::Wild, guard: None, body: last(em(7, Int(40))) },
+                    ];
+                    out.push((
+                        format!("match on {}: {} if g1, _ if g2, {} if g3, _; the value is {}", if is_opt { "i32?" } else { "E" }, vname(a), vname(c), vname(k)),
+                        Prog { fns: vec![Fn_ { params: vec![0, 1, 2], ret: T::I, body: last(Match(b(examinee(k)), is_opt, arms)) }], var_tys: tys },
+                    ));
+                }
+            }
+        }
+    }
     out
 }
 
@@ -906,7 +971,7 @@ fn main() {
             if total_viol > rep.impl_violations.len() {
                 rep.notes.push(format!("{total_viol} violations found; the {} smallest with distinct keys are reported", rep.impl_violations.len()));
             }
-            rep.notes.push(format!("programs generated: {from}; argument tuples per program: 8; corpus programs: {} ({} one per clause of the statement, {} records: 6 written orders x 6 shapes of literal, 3 fields x 4 shapes of reading / assigning a field)", corpus().len(), corpus_clauses().len(), corpus_records().len()));
+            rep.notes.push(format!("programs generated: {from}; argument tuples per program: 8; corpus programs: {} ({} one per clause of the statement, {} records: 6 written orders x 6 shapes of literal, 3 fields x 4 shapes of reading / assigning a field; {} matches: pattern variant x examinee variant, one named variant + `_`, guarded `_` between two variants)", corpus().len(), corpus_clauses().len(), corpus_records().len(), corpus_matches().len()));
         }
         Some("worker") => {
             if std::env::var("C08_VERBOSE").is_err() {
